@@ -16,10 +16,17 @@ Definition d_op (s : sx) : option hop :=
 Definition d_ret (s : sx) : option hret :=
   match s with
   | SL [SZ 0] => Some HUnit
-  | SL [SZ 1; SL [SZ c; sm; cum]] =>
+  | SL [SZ 1; SL [SZ c; sm; cum; _]] =>
       match dF sm, dL dZ cum with Some sm, Some cum => Some (HOut (mkHOut c sm cum)) | _, _ => None end
   | _ => None
   end.
+(* the explicit +Inf bucket (exposed only when it carries an exemplar) must repeat the sample count *)
+Definition inf_bucket_ok (s : sx) : bool :=
+  match s with
+  | SL [_; _; SL [SZ 1; SL [SZ c; _; _; SL infs]]; _; _] => forallb (fun i => match i with SZ z => Z.eqb z c | _ => false end) infs
+  | _ => true
+  end.
+
 Definition d_call (s : sx) : option (Z * Z * hret * Z * Z) :=
   match s with
   | SL [SZ t; SZ i; r; SZ a; SZ b] => option_map (fun r => (t, i, r, a, b)) (d_ret r)
@@ -82,14 +89,15 @@ Definition model_agrees (m : list (Z * Z * hret * Z * Z)) (i : list (Z * Z * hre
 
 Definition check (s : sx) : Z :=
   match s with
-  | SL [SZ kind; bounds; progs; sched; tr; calls; SZ flags] =>
-      match dL dF bounds, dL (dL d_op) progs, dL dZ sched, dL (dP dZ dStr) tr, dL d_call calls with
+  | SL [SZ kind; bounds; progs; sched; tr; calls_sx; SZ flags] =>
+      match dL dF bounds, dL (dL d_op) progs, dL dZ sched, dL (dP dZ dStr) tr, dL d_call calls_sx with
       | Some bounds, Some progs, Some sched, Some tr, Some calls =>
           let summary := Z.eqb kind 1 || Z.eqb kind 3 in
           match impl_history hist_machine (fun o => o) (fun r => r) progs calls with
           | None => code_decode_error
           | Some ih =>
               let spec_ok := Z.eqb flags 0 && Nat.eqb (length ih) (length (concat progs)) &&
+                             (match calls_sx with SL l => forallb inf_bucket_ok l | _ => false end) &&
                              snapshot_check (M := hist_machine) (fun o => o) (fun r => r) bounds ih in
               if negb spec_ok then code_spec_violation
               else if Z.leb 2 kind then code_ok
